@@ -384,6 +384,39 @@ def run(ck, m):
     # unconditionally (a caller-supplied one would never be cleared)
     clr = next((c for c in body_walk(cf) if isinstance(c, ast.Call) and norm(c.func).endswith(".clear") and kw(c, "z_index") is not None), None)
     zst = [st for t, st in stores_in(ast.Module(body=kd.body, type_ignores=[])) if isinstance(t, ast.Subscript) and norm(t) == "kwargs['z_index']"]
+    if not zst:
+        # the forced value may also reach the super() call through a dict merged over the caller's keywords: `**{**kwargs, **overrides}`
+        # with `overrides = {"z_index": <value>, ...}` (later entries win); it is then treated like the plain store
+        sup_ = next((c for c in body_walk(kd) if isinstance(c, ast.Call) and norm(c.func) == "super()._display_animated"), None)
+
+        def provider(e, depth=0):
+            """(value node, statement) that finally provides key 'z_index' in mapping expression e, or None."""
+            if depth > 4:
+                return None
+            if isinstance(e, ast.Name):
+                defs = [st_ for t_, st_ in stores_in(ast.Module(body=kd.body, type_ignores=[])) if isinstance(t_, ast.Name) and t_.id == e.id and isinstance(st_, ast.Assign)]
+                if len(defs) == 1 and not _conds(defs[0]):
+                    r_ = provider(defs[0].value, depth + 1)
+                    return (r_[0], defs[0]) if r_ else None
+                return None
+            if isinstance(e, ast.Dict):
+                found = None
+                for k_, v_ in zip(e.keys, e.values):
+                    if k_ is None:
+                        found = provider(v_, depth + 1) or found
+                    elif isinstance(k_, ast.Constant) and k_.value == "z_index":
+                        found = (v_, None)
+                return found
+            return None
+        from tiv.astutil import conds as _conds
+        if sup_ is not None:
+            for k_ in reversed(sup_.keywords):
+                if k_.arg is None:
+                    pr = provider(k_.value)
+                    if pr is not None:
+                        zst = [ast.copy_location(ast.Assign(targets=[ast.parse("kwargs['z_index']", mode="eval").body], value=pr[0]), pr[1] or enclosing_stmt(sup_))]
+                        zst[0]._p = (pr[1] or enclosing_stmt(sup_))._p
+                        break
     ck.expect(clr is not None, "kitty: _clear_frame's clear(z_index=...) not recognised")
     if clr is not None:
         from tiv.astutil import conds as _conds
